@@ -244,7 +244,7 @@ func (e *Executor) RunTask(ctx context.Context, call *Call) error {
 
 		for i := range t.Cmds {
 			if t.Cmds[i].Defer {
-				defer e.runDeferred(t, call, i, &deferredExitCode)
+				defer e.runDeferred(ctx, t, call, i, &deferredExitCode)
 				continue
 			}
 
@@ -329,8 +329,9 @@ func (e *Executor) runDeps(ctx context.Context, t *ast.Task) error {
 	return g.Wait()
 }
 
-func (e *Executor) runDeferred(t *ast.Task, call *Call, i int, deferredExitCode *uint8) {
-	ctx, cancel := context.WithCancel(context.Background())
+func (e *Executor) runDeferred(ctx context.Context, t *ast.Task, call *Call, i int, deferredExitCode *uint8) {
+	// Deferred commands run even if the task was cancelled
+	ctx, cancel := context.WithCancel(context.WithoutCancel(ctx))
 	defer cancel()
 	ctx = verifhook.Adopt(ctx, call)
 
@@ -433,9 +434,25 @@ func (e *Executor) startExecution(ctx context.Context, t *ast.Task, execute func
 		return execute(ctx)
 	}
 
+	// The execution this call is part of, if any: it cannot finish before this
+	// call returns.
+	parent, _ := ctx.Value(executionKey{}).(*execution)
+
 	e.executionHashesMutex.Lock()
 
 	if other, ok := e.executionHashes[h]; ok {
+		if parent != nil {
+			// Waiting for an execution that (directly or through other waits)
+			// waits for us would never end: the tasks reference each other.
+			if other.waitsFor(parent) {
+				e.executionHashesMutex.Unlock()
+				return &errors.TaskCalledTooManyTimesError{
+					TaskName:        t.Task,
+					MaximumTaskCall: MaximumTaskCall,
+				}
+			}
+			parent.waits = append(parent.waits, other)
+		}
 		verifhook.Ev(ctx, "waiter", h)
 		e.executionHashesMutex.Unlock()
 		e.Logger.VerboseErrf(logger.Magenta, "task: skipping execution of task: %s\n", h)
@@ -453,13 +470,16 @@ func (e *Executor) startExecution(ctx context.Context, t *ast.Task, execute func
 	}
 
 	this := &execution{done: make(chan struct{})}
+	if parent != nil {
+		parent.waits = append(parent.waits, this)
+	}
 	e.executionHashes[h] = this
 	verifhook.Ev(ctx, "register", h)
 	e.executionHashesMutex.Unlock()
 
 	defer close(this.done)
 	defer verifhook.Ev(ctx, "execDone")
-	this.err = execute(ctx)
+	this.err = execute(context.WithValue(ctx, executionKey{}, this))
 	return this.err
 }
 
@@ -468,6 +488,41 @@ func (e *Executor) startExecution(ctx context.Context, t *ast.Task, execute func
 type execution struct {
 	done chan struct{}
 	err  error
+	// The executions this one cannot finish before: those started from within
+	// it and those its calls are waiting for. Guarded by executionHashesMutex.
+	waits []*execution
+}
+
+// executionKey is the context key of the innermost execution a call is part of.
+type executionKey struct{}
+
+// waitsFor reports whether the execution, directly or through other
+// executions, waits for target. The caller holds executionHashesMutex.
+func (x *execution) waitsFor(target *execution) bool {
+	seen := map[*execution]bool{}
+	var visit func(x *execution) bool
+	visit = func(x *execution) bool {
+		if x == target {
+			return true
+		}
+		if seen[x] {
+			return false
+		}
+		seen[x] = true
+		select {
+		case <-x.done:
+			// finished: it waits for nothing any more
+			return false
+		default:
+		}
+		for _, w := range x.waits {
+			if visit(w) {
+				return true
+			}
+		}
+		return false
+	}
+	return visit(x)
 }
 
 // FindMatchingTasks returns a list of tasks that match the given call. A task
